@@ -15,7 +15,8 @@
     cursors, malformed text, rename overflow) is decided each run by the correspondence and the
     before/after oracle. *)
 From DV Require Import Model.Base Model.NameCheck Model.Parser Model.Header Model.Readers Model.Uncompress
-  Model.Mutate Spec.PlainSpec Proofs.Hoare Proofs.HeaderBits Proofs.InsertLemmas Proofs.PlainWf Proofs.InsertFail Proofs.InsertSpec Proofs.HeaderInv Spec.RecordSpec Proofs.WalkSkip Proofs.ReplaceInv Proofs.Totality.
+  Model.Mutate Spec.PlainSpec Proofs.Hoare Proofs.HeaderBits Proofs.InsertLemmas Proofs.PlainWf Proofs.InsertFail Proofs.InsertSpec Proofs.HeaderInv Spec.RecordSpec Proofs.WalkSkip Proofs.ReplaceInv Proofs.Totality
+  Model.Renamer Proofs.FailAtomic.
 
 Theorem C10_insert_bound : forall sec rr s s',
   m_insert_rr sec rr s = (s', Ok tt) -> (N.of_nat (length (pp_packet (fst s'))) <= 8192)%N.
@@ -89,3 +90,15 @@ Print Assumptions C10_set_ttl_succeeds.
 Theorem C10_refused_name_changes_nothing : forall nm s e, check_compressed_name nm 0 = Err e -> m_set_raw_name nm s = (s, Err e).
 Proof. exact set_raw_name_invalid. Qed.
 Print Assumptions C10_refused_name_changes_nothing.
+
+(** the whole-packet operations: an error of [rename_with_raw_names] (from the renamer or from the parse of the renamed
+    packet) or of [recompute] (from the decompression or its parse) leaves object and cursor as they were - any object, any
+    arguments; the new packet is built aside and stored last *)
+Theorem C10_failed_rename_changes_nothing : forall target source sfx st st' e,
+  m_rename target source sfx st = (st', Err e) -> st' = st.
+Proof. exact failed_rename_changes_nothing. Qed.
+Print Assumptions C10_failed_rename_changes_nothing.
+
+Theorem C10_failed_recompute_changes_nothing : forall st st' e, m_recompute st = (st', Err e) -> st' = st.
+Proof. exact failed_recompute_changes_nothing. Qed.
+Print Assumptions C10_failed_recompute_changes_nothing.
